@@ -763,6 +763,19 @@ func init() {
 					// hosts-file rules sharing a name: the bucket of "shared" holds a rule nobody has asked for yet, then a rule
 					// already materialised through its OTHER name (and the other way round in the second group); after the
 					// fault the materialised one must still be served although its neighbour is unreadable
+					// (rules that match every name — "*$denyallow=..." and the like — would answer before the hosts table is
+					// consulted: they are left out of these bases)
+					for li := range ls {
+						var keep []string
+						for _, l := range strings.Split(ls[li].content, "\n") {
+							pat := strings.TrimPrefix(strings.SplitN(l, "$", 2)[0], "@@")
+							if strings.Contains(l, "$") && len(strings.Trim(pat, "*^|")) < 3 {
+								continue
+							}
+							keep = append(keep, l)
+						}
+						ls[li].content = strings.Join(keep, "\n")
+					}
 					a, b := "other"+fmt.Sprint(i)+".example", "shared"+fmt.Sprint(i)+".example"
 					ls[0].content = "0.0.0.1 " + b + "\n0.0.0.2 " + a + " " + b + "\n" + ls[0].content + "::2 " + a + "x " + b + "x\n::1 " + b + "x\n"
 					at := g.Intn(len(ops) + 1)
